@@ -38,7 +38,11 @@ def gen_tree(rng, depth=0, budget=None):
         if budget[0] <= 0:
             break
         name = rng.choice(NAMES)
-        if name in used:
+        if used and rng.random() < 0.3:
+            # a sibling whose name extends (or is extended by) another sibling's: string-prefix confusions between paths
+            base = rng.choice(sorted(used))
+            name = rng.choice([base + "2", base + "-x", base + ".1", base + " ", base[:-1] or "q"])
+        if name in used or name in ("", ".", ".."):
             continue
         used.add(name)
         budget[0] -= 1
@@ -260,7 +264,21 @@ def small_trees(max_nodes):
             yield t
 
 
+# directed scenarios (run first, with the scripts executed): sibling directories whose paths are string prefixes of each other,
+# one wholly unneeded, the other partly kept (seed agent-C04-5), and the same for files
+CORPUS = [
+    ([["g", [["gcc-1", [["old.deb", 5]]], ["gcc-12", [["keep.deb", 5], ["junk.deb", 7]]]]]], [["g", "gcc-12", "keep.deb"]]),
+    ([["gcc-12", [["keep.deb", 5], ["junk.deb", 7]]], ["gcc-1", [["old.deb", 5], ["sub", [["x", 1]]]]]], [["gcc-12", "keep.deb"]]),
+    ([["a", [["f", 1]]], ["ab", [["k", 1], ["j", 1]]], ["abc", 3], ["a b", [["k", 2], ["j", 0]]]], [["ab", "k"], ["a b", "k"]]),
+    ([["d", [["e", [["f", 1]]]]], ["d2", [["e", [["f", 1], ["g", 1]]]]]], [["d2", "e", "f"]]),
+    ([["x", [["y", 4]]], ["x.deb", 9], ["x-", [["keep", 1], ["y", 4]]]], [["x-", "keep"], ["x.deb"]]),
+]
+
+
 def run(chk, tier, rng):
+    for i, (tree, keep) in enumerate(CORPUS):
+        check_tree(chk, tree, keep, None, None, f"corpus{i}")
+        chk.count("corpus_scenarios")
     n = 150 if tier == "quick" else 4000
     for i in range(n):
         r = random.Random(f"C04-{chk.seed}-{i}")
